@@ -16,6 +16,10 @@ def main(argv):
     # operator-level concurrent scenarios: sources whose teardown waits for their producer (a clean shutdown); when the stream has ended and every
     # thread is joined no source is left subscribed, and no teardown waits for a producer that is stuck inside the pipeline
     parts_kernel.trace_part(rep, PID, 400 if rep.tier == 'thorough' else 250, [rep.seed * 100 + 50 + i for i in range(4 if rep.tier == 'thorough' else 1)], extra=['-ops'], label='drive-ops')
+    # kernel level: teardowns (= cancellations of upstream subscriptions) registered while the subscription is being closed by another goroutine -
+    # free-running with yield hooks and schedule replay (one preemption at every hook point)
+    parts_kernel.trace_part(rep, PID, 400 if rep.tier == 'thorough' else 200, [rep.seed * 100 + i for i in range(4 if rep.tier == 'thorough' else 1)])
+    parts_kernel.trace_part(rep, PID, 120 if rep.tier == 'thorough' else 45, [rep.seed * 100 + 70], driver='drive-park', label='drive-park')
     rep.cov['rule'] = common.PIPE_RULE + '; C14 looks at the source teardown counter in the very step in which an operator terminated the stream on a value (no further source event)'
     rep.cov['exhaustive'] = True
     rep.assumptions += ['bounded: scripts <= 3-4 notifications; chains <= 2 operators']
